@@ -106,6 +106,8 @@ pub enum HOp {
     Conn { txs: Vec<u32>, send: BTreeMap<u32, SendR>, get: BTreeMap<u32, GetR> },
     Disc,
     Dump,
+    /// clean stop + start on the same data directory
+    Restart,
 }
 
 /// What an operation returned, for the monitors.
@@ -367,6 +369,42 @@ impl TowerSys {
 
     pub fn height(&self) -> u32 {
         self.chain.last().map(|b| b.2).unwrap_or(0)
+    }
+
+    /// a clean stop and start on the same data directory: every component is rebuilt from the database and the
+    /// last 100 blocks, as `main.rs` does; returns the line for the model
+    pub fn restart_clean(&mut self) -> String {
+        let db_path = self.db_path.clone();
+        let chain = self.chain.clone();
+        let height = self.height();
+        let txs = std::mem::take(&mut self.txs);
+        let txnum = std::mem::take(&mut self.txnum);
+        let locnum = std::mem::take(&mut self.locnum);
+        let sigs = std::mem::take(&mut self.sigs);
+        let blobs = std::mem::take(&mut self.blobs);
+        let uuid_of = std::mem::take(&mut self.uuid_of);
+        let users_seen = std::mem::take(&mut self.users_seen);
+        // the old process's handles are closed first (a clean stop), the file stays
+        KEEP_DB.lock().unwrap().push(db_path.clone());
+        let placeholder = TowerSys::assemble(self.cfg, height, chain.clone(), db_path.clone(), self.next_block);
+        let old = std::mem::replace(self, placeholder);
+        drop(old);
+        KEEP_DB.lock().unwrap().retain(|p| p != &db_path);
+        {
+            let mut n = self.node.0.lock().unwrap();
+            for t in txs.values() {
+                n.txs.insert(t.compute_txid(), t.clone());
+            }
+        }
+        self.txs = txs;
+        self.txnum = txnum;
+        self.locnum = locnum;
+        self.sigs = sigs;
+        self.blobs = blobs;
+        self.uuid_of = uuid_of;
+        self.users_seen = users_seen;
+        let names: Vec<String> = self.chain.iter().rev().take(BOOT_BLOCKS).rev().map(|b| if b.3.is_empty() { format!("b{}", b.0) } else { format!("b{}:{}", b.0, b.3.iter().map(|t| format!("t{}", t * 16)).collect::<Vec<_>>().join(",")) }).collect();
+        format!("tw reboot {height} {}", names.join(" "))
     }
 
     pub fn tx(&mut self, n: u32) -> Transaction {
@@ -742,6 +780,20 @@ impl TowerSys {
                 let d = self.dump();
                 rep.line("tw dump", &d);
                 (Outcome::Done, vec![])
+            }
+            HOp::Restart => {
+                let res = catch_unwind(AssertUnwindSafe(|| self.restart_clean()));
+                match res {
+                    Ok(line) => {
+                        rep.line(&line, "ok");
+                        (Outcome::Done, vec![])
+                    }
+                    Err(_) => {
+                        rep.line("tw reboot 0", "abort");
+                        self.dead = true;
+                        (Outcome::Panicked("bootstrap".into()), vec![])
+                    }
+                }
             }
         }
     }
